@@ -26,10 +26,13 @@ fn deserialize_env(s: &str) -> Result<HashMap<String, String>, String> {
 
 fn serialize_env(env: &HashMap<String, String>) -> String {
     // one KEY=value per line, without a trailing newline (it would print as an empty line, which ends the paragraph)
-    env.iter()
+    // sorted by name: a HashMap iterates in an arbitrary order, and the same value must always print the same text
+    let mut lines = env
+        .iter()
         .map(|(key, value)| format!("{}={}", key, value))
-        .collect::<Vec<_>>()
-        .join("\n")
+        .collect::<Vec<_>>();
+    lines.sort();
+    lines.join("\n")
 }
 
 fn deserialize_version(s: &str) -> Result<debversion::Version, String> {
